@@ -101,6 +101,7 @@ func infoTok(l string) string {
 // the info lines and the bestmove are compared with the end-to-end model and with the specification.
 func casesUciGo(c *caseCtx) {
 	emitZKeys(c, 0)
+	bookChecks(c, "C04")
 	for g := 0; g < c.scale(30, 600); g++ {
 		hash := uint(c.r.Intn(2))
 		quiet := c.r.Intn(4) == 0
